@@ -52,14 +52,14 @@ def parseArg (kind arg : String) : Option Arg :=
   | "f" => some (.f32 (hexToNat arg))
   | "d" => some (.f64 (hexToNat arg))
   | "sl" => some (.strLinked (LIT[arg.toNat!]!))
-  | "sc" | "sv" | "sj" => some (.strCopied (unhex arg))
+  | "sc" | "sv" | "sj" | "sva" => some (.strCopied (unhex arg))      -- "sva": a view that aliases a longer string the document or the caller already holds
   | "sp" => some (.strCopied ((unhex arg).takeWhile (· != 0)))      -- char*: zero-terminated
   | "sjl" => some (.strLinked ((unhex arg).takeWhile (· != 0)))
   | "raw" => some (.raw (unhex arg))
   | _ => none
 
 def isVoidKind (k : String) : Bool :=
-  k == "null" || k == "sl" || k == "sc" || k == "sv" || k == "sp" || k == "sj" || k == "sjl" || k == "raw" || k == "ref" || k == "doc"
+  k == "null" || k == "sl" || k == "sc" || k == "sv" || k == "sva" || k == "sp" || k == "sj" || k == "sjl" || k == "raw" || k == "ref" || k == "doc"
 
 /-- perform `set` of (kind,arg) on location l of document di (bound). -/
 def W.setAt (w : W) (di : Nat) (l : Loc) (kind arg : String) : Bool × W :=
